@@ -146,6 +146,10 @@ def route(tokeniser: Any) -> list[Route]:
         else:
             raise ValueError(f'flow: unknown command "{command}"')
 
+    foreign: str = flow_nlri.foreign()
+    if foreign:
+        raise ValueError(f'flow route: {foreign} is an IPv6 component, the flow needs an IPv6 destination or source')
+
     # Recreate NLRI with correct SAFI if RD is present
     # (avoids SAFI mutation which is incompatible with class-level SAFI)
     if flow_nlri.rd is not RouteDistinguisher.NORD and flow_nlri.safi != SAFI.flow_vpn:
